@@ -20,9 +20,11 @@ OpenMds == {DefaultMd} \cup {Flip(DefaultMd, i) : i \in 1..Len(OpenFlags)}
            \cup {Flip(Flip(DefaultMd, i), j) : i \in 1..Len(OpenFlags), j \in 1..Len(OpenFlags)}
 
 InitStore(input, binds, md) ==
-    [fr |-> << [p |-> 0, m |-> << <<"$", input>> >> \o binds] >>, md |-> md, perm |-> FALSE]
+    [fr |-> << [p |-> 0, m |-> << <<"$", input>> >> \o binds] >>, md |-> md, perm |-> FALSE, eng |-> <<>>]
 
 Run(ast, input, binds, md) == Eval(ast, input, 1, InitStore(input, binds, md))
+\* ... with the recorded observations of the regular-expression engine (C17)
+RunE(ast, input, binds, md, eng) == Eval(ast, input, 1, [InitStore(input, binds, md) EXCEPT !.eng = eng])
 
 ---------------------------------------------------------------------------
 RECURSIVE MatchVal(_, _)
@@ -66,21 +68,23 @@ Verdict1(obs, R) ==
     ELSE "no"
 
 \* all open choices, default first; a deviation only classifies
-Verdict(obs, ast, input, binds) ==
-    LET v0 == Verdict1(obs, Run(ast, input, binds, DefaultMd))
+VerdictE(obs, ast, input, binds, eng) ==
+    LET v0 == Verdict1(obs, RunE(ast, input, binds, DefaultMd, eng))
     IN  IF v0 # "no" \/ ~Legit(obs) THEN v0
         ELSE IF HasNull(input) THEN "inc:null in the input"
-        ELSE LET vs == {Verdict1(obs, Run(ast, input, binds, md)) : md \in OpenMds}
+        ELSE LET vs == {Verdict1(obs, RunE(ast, input, binds, md, eng)) : md \in OpenMds}
                  incs == {v \in vs : v # "ok" /\ v # "no"}
              IN  IF "ok" \in vs THEN "ok" ELSE IF incs # {} THEN CHOOSE v \in incs : TRUE
                  ELSE LET ds == {i \in 1..Len(KnownDevs) :
-                                   Verdict1(obs, Run(ast, input, binds, [DefaultMd EXCEPT !.dev = KnownDevs[i]])) = "ok"}
+                                   Verdict1(obs, RunE(ast, input, binds, [DefaultMd EXCEPT !.dev = KnownDevs[i]], eng)) = "ok"}
                       IN  IF ds = {} THEN "no" ELSE "dev:" \o KnownDevs[CHOOSE i \in ds : TRUE]
 
 \* C10: "no value" is reported as ErrUndefined and only then (where the specification pins the outcome)
-UndefDiffers(obs, ast, input, binds) ==
-    LET R == Run(ast, input, binds, DefaultMd)
+UndefDiffers(obs, ast, input, binds, eng) ==
+    LET R == RunE(ast, input, binds, DefaultMd, eng)
     IN  R.x = "ok" /\ ~HasNull(input) /\ Legit(obs) /\ (IsUndef(R.r) # (obs.o = "undef"))
+
+Verdict(obs, ast, input, binds) == VerdictE(obs, ast, input, binds, <<>>)
 
 \* the outcome the specification expects under the default choices, for export (G direction)
 Expected(ast, input, binds) ==
